@@ -1,7 +1,8 @@
 (* Extraction of the C11 executable model (ExtrOcamlBasic only). coqc runs with cwd = /verif/coq. *)
 From Coq Require Import List NArith ZArith Extraction ExtrOcamlBasic.
-From Kenlm Require Import C11.FilterSpec C11.IntersectModel C11.FilterModel.
+From Kenlm Require Import C11.FilterSpec C11.IntersectModel C11.FilterModel C11.PhraseGraphModel.
 Extraction Language OCaml.
 Extraction "extracted/c11_model.ml"
   first_intersection all_intersection filter_arpa filter_raw read_multiple read_single read_phrases
-  derivable_b phrase_words filter_words is_tag build_postings lookup score restrict Z.add.
+  derivable_b phrase_words filter_words is_tag build_postings lookup score restrict Z.add
+  graph_union_pass graph_multiple_targets phrase_union_pass phrase_multiple_targets.
